@@ -746,7 +746,10 @@ pub fn c04_after(ck: &mut Checker, sim: &mut Sim, session: usize, _p: Proto, _d:
     if clause != "fork_switch_without_rollback" {
         ck.c04.unnoticed.push((clause.to_string(), fork));
     }
-    if need && !rolled {
+    // the numbers can look rolled back (a set_scripts rewind, a script registered at fork + 1)
+    // although nothing was: look for history entries of abandoned blocks
+    let stale_entries = c04_abandoned_entries_indexed(sim, fork, new_id);
+    if (need && !rolled) || stale_entries {
         let detail = format!(
             "tip moved from #{} to #{} on another branch (fork point #{}); scripts were filtered up to {} / min_filtered {} and stay at {} / {}: blocks above the fork point of the abandoned branch remain indexed",
             ck.snap.tip_number,
@@ -760,6 +763,51 @@ pub fn c04_after(ck: &mut Checker, sim: &mut Sim, session: usize, _p: Proto, _d:
         sim.violate("C04", clause, detail);
         sim.taint = Some(format!("C04/{}", clause));
     }
+}
+
+/// Is a transaction-history entry of a block above `fork` stored whose block is not an ancestor
+/// of the new tip `new_id`?
+fn c04_abandoned_entries_indexed(sim: &Sim, fork: u64, new_id: usize) -> bool {
+    use rocksdb::ops::Iterate;
+    use rocksdb::{Direction, IteratorMode};
+    let c = match sim.client.as_ref() {
+        Some(c) => c,
+        None => return false,
+    };
+    for prefix in [96u8, 128u8] {
+        let start = [prefix];
+        let mode = IteratorMode::From(&start[..], Direction::Forward);
+        for (key, value) in c.storage.db.iterator(mode) {
+            if key[0] != prefix {
+                break;
+            }
+            if key.len() < 18 || value.len() != 32 {
+                continue;
+            }
+            let n = u64::from_be_bytes(key[key.len() - 17..key.len() - 9].try_into().unwrap());
+            if n <= fork {
+                continue;
+            }
+            let h = match Byte32::from_slice(&value) {
+                Ok(h) => h,
+                Err(_) => continue,
+            };
+            let on_new_chain = sim
+                .world
+                .tx_locs
+                .get(&h)
+                .map(|locs| {
+                    locs.iter().any(|(id, _)| {
+                        sim.world.blocks[*id].number() == n && sim.world.is_ancestor_or_self(*id, new_id)
+                    })
+                })
+                .unwrap_or(false);
+            if !on_new_chain {
+                return true;
+            }
+        }
+    }
+    false
 }
 
 pub fn c07_on_boot(_ck: &mut Checker, _sim: &mut Sim) {}
